@@ -86,7 +86,7 @@ func runResp(c *Ctx, prop string) {
 		respBatch(c, prop, []respCase{wrap.Case}, perOp)
 		return
 	}
-	files, _ := filepathGlob("/verif/harness/corpus/" + prop + "/*.json")
+	files, _ := filepathGlob(verifRoot + "/harness/corpus/" + prop + "/*.json")
 	for _, f := range files {
 		var wrap struct{ Case respCase `json:"case"` }
 		b, err := osReadFile(f)
